@@ -333,7 +333,16 @@ impl<K: CacheKey + 'static> DiskCache<K> {
     /// The caller publishes it with a rename while holding the index write
     /// lock, so that the file, its index entry and the counters change
     /// together.
-    async fn write_temp_file(&self, path: &Path, data: &Bytes) -> CacheResult<PathBuf> {
+    ///
+    /// The index that holds the expiry time lives in memory only, so the time
+    /// is also kept with the file, as its modification time: another instance
+    /// on this directory (after a restart) can then honour the TTL.
+    async fn write_temp_file(
+        &self,
+        path: &Path,
+        data: &Bytes,
+        expires_at: SystemTime,
+    ) -> CacheResult<PathBuf> {
         let _permit = self
             .io_semaphore
             .acquire()
@@ -379,6 +388,7 @@ impl<K: CacheKey + 'static> DiskCache<K> {
             crate::verif_hooks::sched_point("disk.write.tmp_opened");
             file.write_all(data).map_err(CacheError::Io)?;
             file.flush().map_err(CacheError::Io)?;
+            file.set_modified(expires_at).map_err(CacheError::Io)?;
 
             // Force data to disk for durability in cache operations
             #[cfg(unix)]
@@ -615,6 +625,16 @@ impl<K: CacheKey + 'static> AsyncCache<K> for DiskCache<K> {
                 if let Ok(buffer) = fs::read(&file_path)
                     && let Ok(metadata) = fs::metadata(&file_path)
                 {
+                    // put_with_ttl stores the expiry time as the file's
+                    // modification time (a file written by an older version
+                    // carries its write time and counts as expired once)
+                    let expires_at = metadata.modified().ok();
+                    if expires_at.is_some_and(|expires| SystemTime::now() >= expires) {
+                        let _ = fs::remove_file(&file_path);
+                        self.metrics.record_get(false, start_time.elapsed());
+                        return Ok(None);
+                    }
+
                     let data = Bytes::from(buffer);
                     let size_bytes = data.len();
                     let created = metadata.created().unwrap_or_else(|_| SystemTime::now());
@@ -624,7 +644,7 @@ impl<K: CacheKey + 'static> AsyncCache<K> for DiskCache<K> {
                         file_path: file_path.clone(),
                         size_bytes,
                         created_at: created,
-                        expires_at: None, // Can't determine TTL from existing file
+                        expires_at,
                         last_accessed: SystemTime::now(),
                         access_count: 1,
                     };
@@ -658,7 +678,13 @@ impl<K: CacheKey + 'static> AsyncCache<K> for DiskCache<K> {
         let file_path = self.get_file_path(&key)?;
 
         // Write data to a temporary file
-        let temp_path = self.write_temp_file(&file_path, &value).await?;
+        let now = SystemTime::now();
+        let expires_at = now
+            .checked_add(ttl)
+            .unwrap_or_else(|| now + Duration::from_secs(100 * 365 * 24 * 3600));
+        let temp_path = self
+            .write_temp_file(&file_path, &value, expires_at)
+            .await?;
 
         // Publish the file and update index and counters in one step. Every
         // change to a key's file, its index entry and the counters happens
